@@ -1,3 +1,4 @@
 import HopModel.Props.C14
 import HopModel.Props.C20
 import HopModel.Props.C17
+import HopModel.Props.C16
